@@ -243,6 +243,10 @@ enum Op {
     /// model's spelling (`meta` = `chain:meta`, `block:<h>` = `chain:block:<h>`), value
     RawAdd(usize, &'static str, String, u64),
     Commit(usize),
+    /// a commit during whose `Chain::append` the process stops after the block record was stored and before the height
+    /// record was saved (the pre-commit `chain:meta` record is put back), followed by a restart; a commit that
+    /// stores no block is an ordinary commit
+    CrashCommit(usize),
     Rollback(usize),
     /// restart: a new `TensorChain` object (same identity) over the same store + `initialize()`
     Reopen,
@@ -261,6 +265,7 @@ fn show_op(o: &Op) -> String {
             _ => format!("radd {w} cas {key} - {v}"),
         },
         Op::Commit(w) => format!("commit {w}"),
+        Op::CrashCommit(w) => format!("commit {w} (stop in append after the block record, before the height record; restart)"),
         Op::Rollback(w) => format!("rollback {w}"),
         Op::Reopen => "reopen".into(),
         Op::History(k) => format!("history {k}"),
@@ -280,6 +285,36 @@ fn reserved_tx(kind: &str, real_key: &str, v: u64) -> Transaction {
     }
 }
 const NAMESPACE_CLASS: &str = "tensor_chain.commit/workspace_write_to_chain_namespace";
+/// after a restart the in-memory tip hash is not the hash of the stored block at the in-memory height
+const TIP_CLASS: &str = "tensor_chain.initialize/tip_hash_not_hash_of_tip_block";
+/// a restart over a store left behind by a stop inside `Chain::append` does not recover the stored chain
+const CRASH_CLASS: &str = "tensor_chain.initialize/append_crash_state_not_recovered";
+/// blocks appended / committed through the public interface after a restart over a verifying store do not verify
+const AFTER_RESTART_CLASS: &str = "tensor_chain.initialize/chain_built_after_restart_does_not_verify";
+
+/// oracle (a): the tip hash an object reports is the hash of the stored block at the height it reports
+fn tip_mismatch(height: u64, tip: [u8; 32], store: &TensorStore) -> Option<String> {
+    let b = read_block(store, height)?;
+    if b.hash() == tip {
+        return None;
+    }
+    let names = (0..height).rev().find(|h| read_block(store, *h).is_some_and(|x| x.hash() == tip));
+    Some(format!("height() = {height}, tip_hash() = {}.. but the stored block {height} has hash {}..{}", hex(&tip[..6]), hex(&b.hash()[..6]),
+        names.map_or(String::new(), |h| format!(" (tip_hash() is the hash of block {h})"))))
+}
+/// oracle (b), the links: every stored block `1..=height` names the hash of the stored block below it
+fn broken_links(store: &TensorStore, height: u64) -> Vec<String> {
+    (1..=height)
+        .filter_map(|h| match (read_block(store, h - 1), read_block(store, h)) {
+            (Some(p), Some(b)) if b.header.prev_hash == p.hash() => None,
+            (Some(p), Some(b)) => {
+                let names = (0..h).find(|x| read_block(store, *x).is_some_and(|y| y.hash() == b.header.prev_hash));
+                Some(format!("block {h}: prev_hash {}.. is not the hash of block {} ({}..){}", hex(&b.header.prev_hash[..6]), h - 1, hex(&p.hash()[..6]), names.map_or(String::new(), |x| format!(", it is the hash of block {x}"))))
+            }
+            _ => Some(format!("block {} or {h} missing", h - 1)),
+        })
+        .collect()
+}
 
 fn gen_ops(r: &mut Rng, allow_stale_rollback: bool) -> Vec<Op> {
     let n = 8 + r.below(30) as usize;
@@ -327,7 +362,8 @@ fn gen_ops(r: &mut Rng, allow_stale_rollback: bool) -> Vec<Op> {
             }
         } else if c < 80 {
             let w = r.below(nws as u64) as usize;
-            ops.push(Op::Commit(w));
+            // a fifth of the commits stop inside `Chain::append` (block record stored, height record not) + restart
+            ops.push(if c >= 76 { Op::CrashCommit(w) } else { Op::Commit(w) });
             for x in committed_since.iter_mut() {
                 *x = true;
             }
@@ -361,6 +397,15 @@ struct WsOutcome {
 /// the node identity of the workspace streams (fixed, so that a restart can re-create the same node)
 fn node_identity() -> Identity {
     Identity::from_bytes(&[7u8; 32]).unwrap()
+}
+/// the height a dumped `chain:meta` record names
+fn meta_of_dump(d: &Dump) -> Option<u64> {
+    let f = d.get("chain:meta")?;
+    let (_, bytes) = f.iter().find(|(k, _)| k == "height")?;
+    match bitcode::deserialize::<TensorValue>(bytes).ok()? {
+        TensorValue::Scalar(ScalarValue::Int(h)) => Some(h as u64),
+        _ => None,
+    }
 }
 fn meta_height(store: &TensorStore) -> String {
     match store.get("chain:meta").ok().and_then(|d| d.get("height").cloned()) {
@@ -426,8 +471,9 @@ fn run_ws_case(m: &mut Model, ops: &[Op], max_txs: usize, auto_merge: bool, max_
                 }
                 (r.map_or_else(|e| verr(&e), |()| "ok".into()), m.ask(&show_op(op)), "radd")
             }
-            Op::Commit(w) => {
+            Op::Commit(w) | Op::CrashCommit(w) => {
                 let before_h = tc.height();
+                let meta_before = store.get("chain:meta").ok();
                 let before_img = data_image(&store);
                 let nops = wss[*w].operation_count();
                 let was_active = wss[*w].is_active();
@@ -470,7 +516,31 @@ fn run_ws_case(m: &mut Model, ops: &[Op], max_txs: usize, auto_merge: bool, max_
                 let model = m.ask(&format!("commit {w} {ts}"));
                 // merged ids are compared through the tx multiset of the block; strip the model's merged= part
                 let model = model.split(" merged=").next().unwrap_or("").to_string();
-                (imp, model, "commit")
+                match (op, meta_before) {
+                    (Op::CrashCommit(_), Some(meta_before)) if r.is_ok() && tc.height() == before_h + 1 => {
+                        // the crash state "block record stored, height record not yet saved", then a restart
+                        store.put("chain:meta", meta_before).unwrap();
+                        tc = TensorChain::with_identity(store.clone(), cfg.clone(), node_identity());
+                        let init = tc.initialize();
+                        ts += 1;
+                        // oracles (implementation only; Lean: reopen_after_append_crash_recovers_tip): the restart
+                        // succeeds, finds the stored block, and the tip hash is the hash of that block
+                        if !broken {
+                            if let Some(what) = tip_mismatch(tc.height(), tc.tip_hash(), &store) {
+                                broken = true;
+                                out.violations.push((TIP_CLASS.into(), format!("op {i}: after a stop inside append (block {} stored, height record {before_h}) and a restart: {what}", before_h + 1)));
+                            } else if init.is_err() || tc.height() != before_h + 1 {
+                                broken = true;
+                                out.violations.push((CRASH_CLASS.into(), format!("op {i}: after a stop inside append (block {} stored, height record {before_h}) and a restart: initialize() = {:?}, height {}", before_h + 1, init.as_ref().map_err(|e| e.to_string()), tc.height())));
+                            }
+                        }
+                        let imp = format!("{imp} | restart {} meta={} active={}", state_line(&tc, &store), meta_height(&store), tc.active_transactions());
+                        m.ask(&format!("nsetmeta {before_h}"));
+                        let a = m.ask(&format!("reopen {ts}"));
+                        (imp, format!("{model} | restart {a} meta={} active={}", m.ask("meta"), m.ask("active")), "crashcommit")
+                    }
+                    _ => (imp, model, "commit"),
+                }
             }
             Op::Rollback(w) => {
                 let r = tc.rollback(&wss[*w]);
@@ -482,6 +552,13 @@ fn run_ws_case(m: &mut Model, ops: &[Op], max_txs: usize, auto_merge: bool, max_
                 let init = tc.initialize();
                 ts += 1;
                 let after = chain_snap(&tc, &store);
+                // oracle (implementation only): after ANY restart the tip hash is the hash of the stored block at the height
+                if !broken {
+                    if let Some(what) = tip_mismatch(tc.height(), tc.tip_hash(), &store) {
+                        broken = true;
+                        out.violations.push((TIP_CLASS.into(), format!("op {i}: after a restart: {what}")));
+                    }
+                }
                 // oracle (implementation only): a restart of a healthy node changes nothing
                 if !broken && (init.is_err() || after != before) {
                     out.violations.push((
@@ -556,6 +633,7 @@ fn run_ws_case(m: &mut Model, ops: &[Op], max_txs: usize, auto_merge: bool, max_
                 let (class, what) = match op {
                     Op::Rollback(_) => ("tensor_chain.rollback/stale_checkpoint_wipes_committed_block", "rollback of a workspace begun before a later commit restored the whole store to its checkpoint"),
                     Op::Commit(_) => ("tensor_chain.commit/sequential_commit_not_atomic", "after a sequential commit chain/store are not (one new block + all writes) or untouched"),
+                    Op::CrashCommit(_) => (CRASH_CLASS, "after a commit that stopped inside append (block record stored, height record not yet saved) and a restart, height / blocks / verify / data are not those of the completed commit"),
                     Op::Reopen => ("tensor_chain.initialize/restart_lost_chain", "after a restart (new TensorChain over the same store + initialize()) height / blocks / verify / data are not those of before"),
                     _ => ("tensor_chain.workspace/op_changed_chain_or_store", "a non-commit op changed chain or store"),
                 };
@@ -1024,7 +1102,7 @@ fn gen_late_case(r: &mut Rng, kind: &str, k: u64, prefix: u64) -> LateCase {
 
 struct RawChain {
     store: TensorStore,
-    chain: Chain,
+    chain: Arc<Chain>,
     ids: Vec<Identity>, // [0] unused, [1],[2] registered validators, [3] unregistered
     base_ts: u64,
     reg: Option<Arc<ValidatorRegistry>>,
@@ -1033,11 +1111,17 @@ impl RawChain {
     /// restart: a NEW `Chain` object over the same store (same validator keys) + `initialize()`
     fn reopen(&mut self) -> Result<(), ChainError> {
         let graph = Arc::new(GraphEngine::with_store(self.store.clone()));
-        self.chain = match &self.reg {
+        self.chain = Arc::new(match &self.reg {
             Some(reg) => Chain::with_registry(graph, self.ids[1].node_id(), reg.clone()),
             None => Chain::new(graph, self.ids[1].node_id()),
-        };
+        });
         self.chain.initialize()
+    }
+    /// the process stops and comes back over the store contents `image` (a `snapshot_bytes` of the old store)
+    fn restart_over(&mut self, image: &[u8]) -> Result<(), ChainError> {
+        self.store = TensorStore::new();
+        self.store.restore_from_bytes(image).unwrap();
+        self.reopen()
     }
     fn state(&self) -> String {
         format!(
@@ -1057,7 +1141,7 @@ fn new_raw(with_reg: bool) -> RawChain {
     let reg = Arc::new(ValidatorRegistry::new());
     reg.register(&ids[1]);
     reg.register(&ids[2]);
-    let chain = if with_reg { Chain::with_registry(graph, ids[1].node_id(), reg.clone()) } else { Chain::new(graph, ids[1].node_id()) };
+    let chain = Arc::new(if with_reg { Chain::with_registry(graph, ids[1].node_id(), reg.clone()) } else { Chain::new(graph, ids[1].node_id()) });
     chain.initialize().unwrap();
     let base_ts = read_block(&store, 0).unwrap().header.timestamp;
     RawChain { store, chain, ids, base_ts, reg: if with_reg { Some(reg) } else { None } }
@@ -1111,6 +1195,52 @@ fn mk_block_on(chain: &Chain, ids: &[Identity], base_ts: u64, state_root: [u8; 3
         _ => rc.ids[prop].sign(&bytes),
     };
     b
+}
+
+/// One store state a process can leave behind when it stops inside an operation: the contents of the store right
+/// before the store call `before` of that operation (or after its last one: `before` = "return").
+struct CrashPoint {
+    before: String,
+    image: Vec<u8>,
+    dump: Dump,
+}
+/// Run `task` as ONE real thread that parks at the entry of every store call it makes (the `yield_point` hook of
+/// /repo), and record the store contents at every parking point and at the end.  Consecutive equal contents are
+/// kept once, so the result is: the store before the operation, after its first store write, after its second, …,
+/// after its last — every prefix of the operation's store writes, whatever they are.
+fn crash_points(store: &TensorStore, task: Box<dyn FnOnce() + Send + 'static>) -> Vec<CrashPoint> {
+    let pts: Arc<Mutex<Vec<CrashPoint>>> = Arc::new(Mutex::new(Vec::new()));
+    let record = |pts: &Arc<Mutex<Vec<CrashPoint>>>, s: &TensorStore, before: String| {
+        let dump = store_dump(s);
+        let mut p = pts.lock().unwrap();
+        if p.last().is_none_or(|l| l.dump != dump) {
+            p.push(CrashPoint { before, image: s.snapshot_bytes().unwrap(), dump });
+        }
+    };
+    let (s2, p2) = (store.clone(), pts.clone());
+    run_threads(vec![task], move |_, parked| {
+        let (_, site, key) = &parked[0];
+        // the entry of a `TensorStore` call: no store lock is held by the parked thread
+        if site.starts_with("store.") || *site == "thread.start" {
+            record(&p2, &s2, format!("{site} {key}"));
+        }
+        0
+    });
+    record(&pts, store, "return".to_string());
+    Arc::try_unwrap(pts).map(|m| m.into_inner().unwrap()).unwrap_or_default()
+}
+/// the keys in which two dumps of a store differ
+fn dump_changes(a: &Dump, b: &Dump) -> Vec<String> {
+    let keys: BTreeSet<&String> = a.keys().chain(b.keys()).collect();
+    keys.into_iter()
+        .filter_map(|k| match (a.get(k), b.get(k)) {
+            (Some(x), Some(y)) if x == y => None,
+            (Some(_), Some(_)) => Some(format!("{k} rewritten")),
+            (Some(_), None) => Some(format!("{k} deleted")),
+            (None, Some(_)) => Some(format!("{k} new")),
+            (None, None) => None,
+        })
+        .collect()
 }
 
 const MUTATIONS: &[(&str, &str)] = &[
@@ -1537,7 +1667,7 @@ fn main() {
         "seeded op sequences / block sequences / mutations; a case is non-trivial when it appends or commits at least one \
          block (workspace stream: >=1 successful non-empty commit; append stream: >=1 accepted block; tamper stream: one \
          mutation applied to a stored block of a verifying chain; replay: >=1 block applied; concurrent: >=1 commit Ok; \
-         late_fail: >=1 commit of the history returned an error; reopen: every case (a restart over a chain of >=1 appended block); \
+         late_fail: >=1 commit of the history returned an error; reopen and directed.append_crash: every case (a restart over a chain of >=1 appended / committed block, or over a store a stopped commit left behind); \
          replay.verdicts: >=1 block accepted and >=1 rejected; variants: >=1 successful commit); distinct = distinct canonical case text",
     );
     rep.expected_branches = [
@@ -1557,6 +1687,9 @@ fn main() {
         "reopen.none.verify_ok", "reopen.remove_tip.verify_ok", "reopen.remove_inner.verify_err_not_found", "reopen.meta_ahead.verify_ok",
         "reopen.meta_behind.verify_ok", "reopen.meta_deleted.verify_ok", "reopen.plant_next_valid.verify_ok",
         "reopen.plant_next_badprev.verify_err_prev_hash", "reopen.plant_gap.verify_ok",
+        "reopen.append_crash.verify_ok", "reopen.append_crash.k0", "reopen.append_crash.k1", "reopen.append_crash.k2", "reopen.model_followed_to_the_end",
+        "directed.append_crash.block_stored_height_not_saved", "directed.append_crash.point.k0", "directed.append_crash.point.k1", "directed.append_crash.point.k2",
+        "directed.append_crash.chain_after_restart_verifies", "ws.crashcommit.ok_h",
         "replay.verdict.ok", "replay.verdict.err_state_root", "replay.verdict.err_height", "replay.verdict.err_prev_hash",
         "replay.verdict.err_tx_root", "replay.verdict.err_unsigned", "replay.verdict.err_bad_sig",
         "variants.late_fail.failed", "variants.op.Put", "variants.op.Delete", "variants.op.Embed", "variants.op.NodeCreate", "variants.op.NodeDelete",
@@ -1806,6 +1939,164 @@ fn main() {
             rep.case("directed.committed_block_replay", Some(cfgname));
         }
     }
+    // (4) RESTART OVER A CRASH STATE OF Chain::append, through the public interface (begin / put / commit) of TensorChain.
+    // For N = 1, 2, 3: N-1 committed blocks, then the commit of block N is interrupted, the node restarts, the tip is
+    // checked, further workspaces are committed (with and without another restart between them), verify() and the
+    // predecessor links are checked.  Oracles (a) TIP_CLASS, (b) AFTER_RESTART_CLASS, (c) CRASH_CLASS as in stream
+    // `reopen`, on the real objects, independent of the model; the model (`ncrash` / `nsetmeta` + `reopen`) is followed
+    // until the first disagreement of a case.
+    //  (4a) the shortest history: the pre-append chain:meta record is put back after the commit of block N — the store
+    //       "block N stored, height N-1 saved" — exactly what the guard "re-read the tip after the walk forward" is for;
+    //  (4b) every crash point of the whole commit of block N: the commit runs as a real thread that parks before each
+    //       store call; every distinct store content on the way is restarted over.
+    {
+        let open_tc = |store: &TensorStore| -> (TensorChain, Result<(), ChainError>) {
+            let tc = TensorChain::with_identity(store.clone(), ChainConfig::new("n"), node_identity());
+            let init = tc.initialize();
+            (tc, init)
+        };
+        let commit_put = |tc: &TensorChain, k: u64, v: u64| -> String {
+            let w = tc.begin().unwrap();
+            w.add_operation(Tx::Put(k, v).real()).unwrap();
+            tc.commit(&w).map_or_else(|e| verr(&e), |_| format!("ok h={}", tc.height()))
+        };
+        // one case: `store` is what the stopped process left behind (`blocks_stored` = highest block record in it);
+        // `model_ws` = number of workspaces the model node has begun so far (None: the model has no such state)
+        let mut after_crash = |rep: &mut Report, m: &mut Model, store: TensorStore, what: String, history: &Vec<String>, second_restart: bool, model_ws: Option<u64>, label: &str| {
+            let mut steps: Vec<String> = Vec::new();
+            let desc = |steps: &Vec<String>| json!({"stream": "directed.append_crash", "through": "TensorChain begin/put/commit", "history": history, "stop": what, "second_restart_between_the_commits": second_restart, "then": steps});
+            let mut agree = model_ws.is_some();
+            let mut ws = model_ws.unwrap_or(0);
+            let top_stored = { let p = blocks_present(&store); (0..).take_while(|h| p.contains(h)).last().unwrap_or(0) };
+            let (mut tc, init) = open_tc(&store);
+            let ver = vres(tc.verify());
+            steps.push(format!("restart => initialize() = {}, {} meta={}, tip_hash {}..", init.as_ref().map_or_else(|e| verr(e), |()| "ok".into()), state_line(&tc, &store), meta_height(&store), hex(&tc.tip_hash()[..6])));
+            if agree {
+                agree &= rep.compare("directed.append_crash", || desc(&steps), &format!("{} meta={}", state_line(&tc, &store), meta_height(&store)), &format!("{} meta={}", m.ask("reopen 50"), m.ask("meta")));
+            }
+            let mut tip_bad = false;
+            if let Some(w) = tip_mismatch(tc.height(), tc.tip_hash(), &store) {
+                tip_bad = true;
+                violation(rep, TIP_CLASS, &format!("after a restart (new TensorChain over the store + initialize()): {w}"), desc(&steps));
+            }
+            if !tip_bad && (init.is_err() || tc.height() != top_stored || ver != "ok" || meta_height(&store) != top_stored.to_string()) {
+                violation(rep, CRASH_CLASS, &format!("a new TensorChain over a store left behind by a stop inside commit/append: initialize() does not end at the highest stored block {top_stored} with its height record saved and a verifying chain"), desc(&steps));
+            }
+            let gate = init.is_ok() && ver == "ok" && blocks_present(&store) == (0..=tc.height()).collect::<Vec<_>>();
+            let mut all_ok = true;
+            for step in 0..2u64 {
+                let (k, v) = (10 + step, 100 + step);
+                let imp = commit_put(&tc, k, v);
+                all_ok &= imp.starts_with("ok");
+                steps.push(format!("begin; put d{k} {v}; commit => {imp}; {}", state_line(&tc, &store)));
+                if agree {
+                    m.ask("begin");
+                    m.ask(&format!("put {ws} {k} {v}"));
+                    let a = m.ask(&format!("commit {ws} {}", 60 + step));
+                    ws += 1;
+                    agree = rep.compare("directed.append_crash", || desc(&steps), &imp, a.split(" txs=").next().unwrap_or(""))
+                        && rep.compare("directed.append_crash", || desc(&steps), &state_line(&tc, &store), &m.ask("state"));
+                }
+                if step == 1 || second_restart {
+                    let (t2, init) = open_tc(&store);
+                    tc = t2;
+                    steps.push(format!("restart => initialize() = {}, {}, tip_hash {}..", init.as_ref().map_or_else(|e| verr(e), |()| "ok".into()), state_line(&tc, &store), hex(&tc.tip_hash()[..6])));
+                    if agree {
+                        agree &= rep.compare("directed.append_crash", || desc(&steps), &state_line(&tc, &store), &m.ask(&format!("reopen {}", 70 + step)));
+                    }
+                    if !tip_bad {
+                        if let Some(w) = tip_mismatch(tc.height(), tc.tip_hash(), &store) {
+                            tip_bad = true;
+                            violation(rep, TIP_CLASS, &format!("after a restart (new TensorChain over the store + initialize()): {w}"), desc(&steps));
+                        }
+                    }
+                }
+            }
+            if gate && all_ok {
+                let ver = vres(tc.verify());
+                let links = broken_links(&store, tc.height());
+                if ver != "ok" || !links.is_empty() {
+                    violation(rep, AFTER_RESTART_CLASS, &format!("verify() was Ok right after the restart over a store holding exactly the blocks 0..=height(); two further workspaces committed through begin / put / commit, both Ok, and the chain does not verify: verify() = {ver}; {}", links.join("; ")), desc(&steps));
+                } else {
+                    rep.hit("directed.append_crash.chain_after_restart_verifies");
+                }
+            }
+            rep.hit(if agree { "directed.append_crash.model_followed_to_the_end" } else if model_ws.is_some() { "directed.append_crash.real_only_after_disagreement" } else { "directed.append_crash.real_only" });
+            rep.case("directed.append_crash", Some(label));
+            desc(&steps)
+        };
+        for n in 1..=3u64 {
+            for second_restart in [false, true] {
+                // (4a)
+                let store = TensorStore::new();
+                let (tc, _) = open_tc(&store);
+                m.ask("init 1000 0 10 0");
+                let mut history = Vec::new();
+                for i in 1..n {
+                    history.push(format!("begin; put d{i} {i}; commit => {}", commit_put(&tc, i, i)));
+                    m.ask("begin");
+                    m.ask(&format!("put {} {i} {i}", i - 1));
+                    m.ask(&format!("commit {} {i}", i - 1));
+                }
+                let meta_before = store.get("chain:meta").unwrap();
+                history.push(format!("begin; put d{n} {n}; commit => {}", commit_put(&tc, n, n)));
+                m.ask("begin");
+                m.ask(&format!("put {} {n} {n}", n - 1));
+                m.ask(&format!("commit {} {n}", n - 1));
+                store.put("chain:meta", meta_before).unwrap();
+                m.ask(&format!("nsetmeta {}", n - 1));
+                drop(tc);
+                rep.hit("directed.append_crash.block_stored_height_not_saved");
+                let d = after_crash(&mut rep, &mut m, store, format!("the process stops inside the append of block {n}: block record {n} stored, chain:meta still names height {} (the pre-append record put back)", n - 1), &history, second_restart, Some(n), &format!("4a {n} {second_restart}"));
+                if n == 2 && !second_restart {
+                    rep.sample(d);
+                }
+            }
+            // (4b)
+            let store = TensorStore::new();
+            let (tc, _) = open_tc(&store);
+            let mut history = Vec::new();
+            for i in 1..n {
+                history.push(format!("begin; put d{i} {i}; commit => {}", commit_put(&tc, i, i)));
+            }
+            let tc = Arc::new(tc);
+            let w = tc.begin().unwrap();
+            w.add_operation(Tx::Put(n, n).real()).unwrap();
+            history.push(format!("begin; put d{n} {n}; commit (interrupted)"));
+            let tc2 = tc.clone();
+            let points = crash_points(&store, Box::new(move || {
+                let _ = tc2.commit(&w);
+            }));
+            rep.hit_n("directed.append_crash.commit_crash_points", points.len() as u64);
+            for (j, pt) in points.iter().enumerate() {
+                let written = dump_changes(&points[0].dump, &pt.dump);
+                let block_stored = pt.dump.contains_key(&format!("chain:block:{n}"));
+                let k = if !block_stored { 0 } else if meta_of_dump(&pt.dump) == Some(n) { 2 } else { 1 };
+                rep.hit(&format!("directed.append_crash.point.k{k}"));
+                for second_restart in [false, true] {
+                    // the model has the states from "block record stored" on (`commitCrashInAppend`)
+                    let model_ws = if k >= 1 {
+                        m.ask("init 1000 0 10 0");
+                        for i in 1..n {
+                            m.ask("begin");
+                            m.ask(&format!("put {} {i} {i}", i - 1));
+                            m.ask(&format!("commit {} {i}", i - 1));
+                        }
+                        m.ask("begin");
+                        m.ask(&format!("put {} {n} {n}", n - 1));
+                        let a = m.ask(&format!("ncrash {} {n} {k}", n - 1));
+                        rep.compare("directed.append_crash", || json!({"history": history, "at": format!("ncrash {} {n} {k}", n - 1)}), "ok", &a);
+                        Some(n)
+                    } else {
+                        None
+                    };
+                    let copy = TensorStore::new();
+                    copy.restore_from_bytes(&pt.image).unwrap();
+                    after_crash(&mut rep, &mut m, copy, format!("the process stops inside the commit of block {n} before its store call `{}` (point {j} of {}; written so far: {})", pt.before, points.len(), if written.is_empty() { "nothing".to_string() } else { written.join(", ") }), &history, second_restart, model_ws, &format!("4b {n} {j} {second_restart}"));
+                }
+            }
+        }
+    }
     lap("directed");
     // ---------------- stream A: workspace op sequences
     let mut r = root.fork("workspaces");
@@ -1840,7 +2131,7 @@ fn main() {
                 for o in cand {
                     match o {
                         Op::Begin(_) => n += 1,
-                        Op::Put(w, ..) | Op::Del(w, _) | Op::Cas(w, ..) | Op::RawAdd(w, ..) | Op::Commit(w) | Op::Rollback(w) => {
+                        Op::Put(w, ..) | Op::Del(w, _) | Op::Cas(w, ..) | Op::RawAdd(w, ..) | Op::Commit(w) | Op::CrashCommit(w) | Op::Rollback(w) => {
                             if *w >= n {
                                 return false;
                             }
@@ -2229,17 +2520,37 @@ fn main() {
     lap("tamper");
     // ---------------- stream B3: restart (a new `Chain` object over the same store + `initialize()`), healthy and
     // damaged stores: tip / inner block record removed, height record ahead / behind / deleted, a block record planted
-    // above the head (valid successor, wrong predecessor hash, with a gap).  The recovered head, `verify_chain`, the
-    // height record, one further append and a second restart are compared with the model (`openChain`).
+    // above the head (valid successor, wrong predecessor hash, with a gap), and EVERY CRASH STATE OF `Chain::append`
+    // (`append_crash`: the append of one more valid block runs as a real thread that parks before each of its store
+    // calls; the store contents before each call are the states a stopped process leaves behind — enumerated, not
+    // hand-picked; first for chains of 1, 2, 3 blocks and every crash point, then at random).  After the restart: one
+    // further block built from the object's own height()/tip_hash(), a restart, another block, a final restart —
+    // compared with the model (`openChain`) until the first disagreement of the case, real-only after it.
+    // Property oracles, on the REAL objects, in every case and whether or not the model agrees:
+    //  (a) after every restart tip_hash() is the hash of the stored block at height()             [TIP_CLASS]
+    //  (b) if verify_chain() is Ok right after the first restart and the store holds exactly the blocks 0..=height(),
+    //      then with the further blocks, all accepted by append, verify_chain() is still Ok and every block names the
+    //      hash of its predecessor                                                                [AFTER_RESTART_CLASS]
+    //  (c) over an untouched store or a crash state of append: the restart succeeds, height() is the highest stored
+    //      block, verify_chain() is Ok                                    [restart_changed_chain / CRASH_CLASS]
     let mut r = root.fork("reopen");
-    const DAMAGES: &[&str] = &["none", "remove_tip", "remove_inner", "meta_ahead", "meta_behind", "meta_deleted", "plant_next_valid", "plant_next_badprev", "plant_gap"];
-    for case in 0..(DAMAGES.len() as u64 + 40 * scale) {
-        let directed = (case as usize) < DAMAGES.len();
+    const DAMAGES: &[&str] = &["none", "remove_tip", "remove_inner", "meta_ahead", "meta_behind", "meta_deleted", "plant_next_valid", "plant_next_badprev", "plant_gap", "append_crash"];
+    // (chain length, damage, crash point) of the directed cases; the crash points of length n are appended when known
+    let mut plan: Vec<(u64, &str, usize)> = DAMAGES.iter().filter(|d| **d != "append_crash").map(|d| (2u64, *d, 0usize)).collect();
+    plan.extend([(1, "append_crash", 0), (2, "append_crash", 0), (3, "append_crash", 0)]);
+    let nrandom = 40 * scale;
+    let mut case = 0u64;
+    let mut random_done = 0u64;
+    while !plan.is_empty() || random_done < nrandom {
+        let directed = !plan.is_empty();
+        let (n, damage, crash_j) = if directed { plan.remove(0) } else { random_done += 1; (1 + r.below(5), *r.pick(DAMAGES), usize::MAX) };
         let with_reg = directed || r.chance(3, 4);
-        let n = if directed { 2 } else { 1 + r.below(5) };
-        let damage = if directed { DAMAGES[case as usize] } else { *r.pick(DAMAGES) };
+        let early_second_restart = if directed { case % 2 == 1 } else { r.chance(1, 2) };
+        case += 1;
         let mut rc = new_raw(with_reg);
         m.ask(&format!("cinit {} 1000", u8::from(with_reg)));
+        // model consulted until the first disagreement of this case
+        let mut agree = true;
         let mut val = 0u64;
         let mut lines = Vec::new();
         for j in 0..n {
@@ -2250,7 +2561,7 @@ fn main() {
             let b = mk_block(&rc, "ok", "ok", "ok", "ok", ts_off, prop, &txs);
             let line = format!("cappend ok ok ok ok {ts_off} {prop} {}", show_txs(&txs));
             let imp = rc.chain.append(b).map_or_else(|e| verr(&e), |_| "ok".into());
-            rep.compare("reopen.build", || json!({"line": line}), &imp, &m.ask(&line));
+            agree &= rep.compare("reopen.build", || json!({"line": line}), &imp, &m.ask(&line));
             lines.push(line);
         }
         let set_meta = |store: &TensorStore, h: u64| {
@@ -2266,6 +2577,10 @@ fn main() {
             m.ask(&line);
             line
         };
+        // the store the restart runs over, when it is not the running object's store
+        let mut crash_image: Option<Vec<u8>> = None;
+        // the store is a state a correct run can leave behind: untouched, or a crash state of append
+        let mut crash_state = false;
         let dmg_line = match damage {
             "remove_tip" => {
                 rc.store.delete(&format!("chain:block:{n}")).unwrap();
@@ -2298,40 +2613,117 @@ fn main() {
             "plant_next_valid" => plant(&rc, &mut m, &mut r, "ok", "ok"),
             "plant_next_badprev" => plant(&rc, &mut m, &mut r, "ok", "bad"),
             "plant_gap" => plant(&rc, &mut m, &mut r, "skip", "ok"),
+            "append_crash" => {
+                let txs = gen_txs(&mut r, 1, &mut val);
+                let b = mk_block(&rc, "ok", "ok", "ok", "ok", 2000, 1, &txs);
+                let chain = rc.chain.clone();
+                let points = crash_points(&rc.store, Box::new(move || {
+                    let _ = chain.append(b);
+                }));
+                if directed && crash_j == 0 {
+                    // every other crash point of this chain length becomes a directed case of its own
+                    for j in (1..points.len()).rev() {
+                        plan.insert(0, (n, "append_crash", j));
+                    }
+                    rep.hit_n("reopen.append_crash.points", points.len() as u64);
+                }
+                let j = if crash_j == usize::MAX { r.below(points.len() as u64) as usize } else { crash_j.min(points.len() - 1) };
+                let pt = &points[j];
+                let written: Vec<String> = dump_changes(&points[0].dump, &pt.dump);
+                // the same stop in the model: how many of append's two records are written
+                let k = if !pt.dump.contains_key(&format!("chain:block:{}", n + 1)) { 0 } else if meta_of_dump(&pt.dump) == Some(n + 1) { 2 } else { 1 };
+                rep.hit(&format!("reopen.append_crash.k{k}"));
+                let line = format!("ccrash {k} ok ok ok ok 2000 1 {}", show_txs(&txs));
+                agree &= rep.compare("reopen.crash", || json!({"build": lines, "line": line}), "ok", &m.ask(&line));
+                crash_image = Some(pt.image.clone());
+                crash_state = true;
+                format!("append of block {} [{}] stops before its store call `{}` (point {j} of {}; written so far: {})", n + 1, show_txs(&txs), pt.before, points.len(), if written.is_empty() { "nothing".to_string() } else { written.join(", ") })
+            }
             _ => "none".to_string(),
         };
         let healthy = dmg_line == "none";
+        crash_state |= healthy;
         let (h0, tip0) = (rc.chain.height(), rc.chain.tip_hash());
-        let desc = json!({"stream": "reopen", "registry": with_reg, "build": lines, "damage": dmg_line});
+        let mut steps: Vec<String> = Vec::new();
+        let mk_desc = |steps: &Vec<String>| json!({"stream": "reopen", "registry": with_reg, "build": lines, "damage": dmg_line, "then": steps});
         let running_ver = vres(rc.chain.verify_chain());
-        rep.compare("reopen.verify_running_object", || desc.clone(), &running_ver, &m.ask("cverify"));
-        let opened = rc.reopen();
+        if crash_image.is_none() {
+            agree = agree && rep.compare("reopen.verify_running_object", || mk_desc(&steps), &running_ver, &m.ask("cverify"));
+        }
+        // ---- first restart
+        let opened = match &crash_image {
+            Some(img) => rc.restart_over(img),
+            None => rc.reopen(),
+        };
         let imp = opened.as_ref().map_or_else(|e| verr(e), |()| rc.state());
-        let model = format!("{} meta={}", m.ask("copen 5000"), m.ask("cmeta"));
-        rep.compare("reopen.initialize", || desc.clone(), &imp, &model);
+        steps.push(format!("restart => {imp}, tip_hash {}..", hex(&rc.chain.tip_hash()[..6])));
+        if agree {
+            let model = format!("{} meta={}", m.ask("copen 5000"), m.ask("cmeta"));
+            agree &= rep.compare("reopen.initialize", || mk_desc(&steps), &imp, &model);
+        }
         let ver = vres(rc.chain.verify_chain());
         rep.hit(&format!("reopen.{}.verify_{}", if healthy { "none" } else { damage }, ver.split(' ').take(2).collect::<Vec<_>>().join("_")));
+        // oracle (a)
+        let mut tip_bad = false;
+        if let Some(what) = tip_mismatch(rc.chain.height(), rc.chain.tip_hash(), &rc.store) {
+            tip_bad = true;
+            violation(&mut rep, TIP_CLASS, &format!("after a restart (new Chain over the store + initialize()): {what}"), mk_desc(&steps));
+        }
+        // oracle (c)
+        let top_stored = { let p = blocks_present(&rc.store); (0..).take_while(|h| p.contains(h)).last().unwrap_or(0) };
         if healthy && (opened.is_err() || rc.chain.height() != h0 || rc.chain.tip_hash() != tip0 || ver != "ok") {
-            violation(&mut rep, "tensor_chain.initialize/restart_changed_chain", "a new Chain object over the untouched store of a verifying chain + initialize() does not recover height / tip, or the recovered chain does not verify", desc.clone());
+            violation(&mut rep, "tensor_chain.initialize/restart_changed_chain", "a new Chain object over the untouched store of a verifying chain + initialize() does not recover height / tip, or the recovered chain does not verify", mk_desc(&steps));
+        } else if crash_state && !tip_bad && (opened.is_err() || rc.chain.height() != top_stored || ver != "ok" || meta_height(&rc.store) != top_stored.to_string()) {
+            violation(&mut rep, CRASH_CLASS, &format!("a new Chain object over a store left behind by a stop inside append: initialize() does not end at the highest stored block {top_stored} with its height record saved and a verifying chain"), mk_desc(&steps));
         }
         if damage == "remove_tip" && running_ver == format!("err not_found {n}") && opened.is_ok() && ver == "ok" && rc.chain.height() + 1 == h0 {
             // known finding (see the directed case at the start of the run); same class, computed from this trace
             violation(&mut rep, "tensor_chain.initialize/removed_tip_block_undetected_after_restart", "the record of the tip block was removed from the store: the running object's verify_chain() reports it, but a new Chain + initialize() walks the height back, saves it, and verify_chain() returns Ok on the truncated chain (Lean: reopen_heals_removed_tip_witness)",
                 json!({"stream": "reopen", "registry": with_reg, "build": lines, "damage": dmg_line, "verify_running_object": running_ver, "height_before": h0, "height_after_restart": rc.chain.height(), "verify_after_restart": ver}));
         }
-        // one further block on the recovered head, then a second restart
-        let txs = gen_txs(&mut r, 1, &mut val);
-        let b = mk_block(&rc, "ok", "ok", "ok", "ok", 10_000_000, 1, &txs);
-        let line = format!("cappend ok ok ok ok 10000000 1 {}", show_txs(&txs));
-        let imp = rc.chain.append(b).map_or_else(|e| verr(&e), |_| "ok".into());
-        rep.compare("reopen.append_after", || desc.clone(), &imp, &m.ask(&line));
-        rep.compare("reopen.state_after_append", || desc.clone(), &rc.state(), &format!("{} meta={}", m.ask("cstate"), m.ask("cmeta")));
-        let opened = rc.reopen();
-        let imp = opened.as_ref().map_or_else(|e| verr(e), |()| rc.state());
-        rep.compare("reopen.second_initialize", || desc.clone(), &imp, &format!("{} meta={}", m.ask("copen 6000"), m.ask("cmeta")));
-        rep.case("reopen", Some(&format!("{case} {with_reg} {} {dmg_line}", lines.join(";"))));
-        if case < 1 {
-            rep.sample(json!({"stream": "reopen", "registry": with_reg, "build": lines, "damage": dmg_line, "after_restart": rc.state()}));
+        // ---- further blocks through the public interface: each built from the object's own height() / tip_hash()
+        // (the store holds exactly the blocks 0..=height(): no stale record above the recovered head)
+        let verified_after_restart = opened.is_ok() && ver == "ok" && blocks_present(&rc.store) == (0..=rc.chain.height()).collect::<Vec<_>>();
+        let mut all_accepted = true;
+        for step in 0..2u64 {
+            let txs = gen_txs(&mut r, 1, &mut val);
+            let ts_off = 10_000_000 + 2 * step;
+            let b = mk_block(&rc, "ok", "ok", "ok", "ok", ts_off, 1, &txs);
+            let line = format!("cappend ok ok ok ok {ts_off} 1 {}", show_txs(&txs));
+            let imp = rc.chain.append(b).map_or_else(|e| verr(&e), |_| "ok".into());
+            all_accepted &= imp == "ok";
+            steps.push(format!("append block {} [{}] on height()/tip_hash() => {imp}; {}", rc.chain.height(), show_txs(&txs), rc.state()));
+            if agree {
+                agree = rep.compare("reopen.append_after", || mk_desc(&steps), &imp, &m.ask(&line))
+                    && rep.compare("reopen.state_after_append", || mk_desc(&steps), &rc.state(), &format!("{} meta={}", m.ask("cstate"), m.ask("cmeta")));
+            }
+            if step == 1 || early_second_restart {
+                let opened = rc.reopen();
+                let imp = opened.as_ref().map_or_else(|e| verr(e), |()| rc.state());
+                steps.push(format!("restart => {imp}, tip_hash {}..", hex(&rc.chain.tip_hash()[..6])));
+                if agree {
+                    agree &= rep.compare("reopen.second_initialize", || mk_desc(&steps), &imp, &format!("{} meta={}", m.ask("copen 6000"), m.ask("cmeta")));
+                }
+                if !tip_bad {
+                    if let Some(what) = tip_mismatch(rc.chain.height(), rc.chain.tip_hash(), &rc.store) {
+                        tip_bad = true;
+                        violation(&mut rep, TIP_CLASS, &format!("after a restart (new Chain over the store + initialize()): {what}"), mk_desc(&steps));
+                    }
+                }
+            }
+        }
+        // oracle (b)
+        if verified_after_restart && all_accepted {
+            let ver = vres(rc.chain.verify_chain());
+            let links = broken_links(&rc.store, rc.chain.height());
+            if ver != "ok" || !links.is_empty() {
+                violation(&mut rep, AFTER_RESTART_CLASS, &format!("verify_chain() was Ok right after the restart over a store holding exactly the blocks 0..=height(); two further blocks, each built from the restarted object's own height() and tip_hash() and accepted by append, and the chain does not verify: verify_chain() = {ver}; {}", links.join("; ")), mk_desc(&steps));
+            }
+        }
+        rep.hit(if agree { "reopen.model_followed_to_the_end" } else { "reopen.real_only_after_disagreement" });
+        rep.case("reopen", Some(&format!("{case} {with_reg} {} {dmg_line} {early_second_restart}", lines.join(";"))));
+        if case <= 1 || (directed && damage == "append_crash" && n == 2) {
+            rep.sample(mk_desc(&steps));
         }
     }
 
